@@ -61,9 +61,12 @@ def replay(ctx, path, cmd="auth-replay", sig_prefix="replay:auth", describe=None
         case = cases[r["idx"]]
         kind = classify(r["problems"][0])
         extra = describe(case, r) if describe else ""
+        if extra.startswith(":") and sig_prefix.endswith("snap"):
+            kind = ""
+            extra = extra[1:]
         if kind == "other":
             kind = r["problems"][0].split(":")[0].replace(" ", "-")[:40]
-        ctx.finding("%s:%s%s" % (sig_prefix, kind, extra), "; ".join(r["problems"][:2])[:400],
+        ctx.finding(("%s:%s%s" % (sig_prefix, kind, extra)).replace("::", ":"), "; ".join(r["problems"][:2])[:400],
                     {"kind": cmd, "case": case, "row": r})
     n = len(rows)
     ctx.cov["evaluations"] += n
